@@ -372,13 +372,16 @@ Violated(c) ==
       swapped == \E k \in 1..Len(log) : log[k].op = c.op /\ log[k].x = c.y /\ log[k].y = c.x /\ log[k].F = c.F
       v06f == IF "C06" \in Laws /\ fw /\ (c.x = c.y \/ swapped)
                  /\ (~C01_WitnessF(c) \/ (c.x = c.y /\ c.op \in {"diff", "xor"} /\ c.smp # <<>>)) THEN {"C06"} ELSE {}
+      \* C05 on float operands: the five results of one pair partition each other iff each of them is the named combination
+      \* at every admissible witness
+      v05f == IF "C05" \in Laws /\ fw /\ Depth1(c) /\ ~C01_WitnessF(c) THEN {"C05"} ELSE {}
       v06 == IF "C06" \in Laws /\ ok /\ un /\ ~OpaqueCall(c) /\ ~((big \/ (C06_Self(c) /\ C06_Empty(c) /\ (~(c04 \/ AllIntegral(allE)) \/ C06_TouchingBoxes(c, extra)))) /\ C06_DisjointBoxes(c) /\ pair(C06_Commutes)) THEN {"C06"} ELSE {}
       v07 == IF "C07" \in Laws /\ ~OpaqueCall(c) /\ ~pair(C07_RepresentationInvariant) THEN {"C07"} ELSE {}
       v08 == IF "C08" \in Laws /\ ~big /\ ~pair(C08_TransformCommutes) THEN {"C08"} ELSE {}
       v09 == IF "C09" \in Laws /\ ~big /\ ~pair(C09_FarPartLocal) THEN {"C09"} ELSE {}
       v10 == IF "C10" \in Laws /\ ~OpaqueCall(c) /\ ~pair(C10_F32AgreesF64) THEN {"C10"} ELSE {}
       v05 == IF "C05" \in Laws /\ ~big /\ ~C05_Partition(c, lg) THEN {"C05"} ELSE {}
-  IN vfh \cup vdom \cup und \cup v03 \cup v12 \cup v04 \cup v01 \cup v11 \cup v02 \cup v06 \cup v06f \cup v07 \cup v08 \cup v09 \cup v10 \cup v05
+  IN vfh \cup vdom \cup und \cup v03 \cup v12 \cup v04 \cup v01 \cup v11 \cup v02 \cup v06 \cup v06f \cup v05f \cup v07 \cup v08 \cup v09 \cup v10 \cup v05
 
 \* ------------------------------------------------------------------- actions
 \* is the generator's claim about the new operand true? (a false claim is a harness error)
